@@ -167,21 +167,10 @@ func (L *LFacts) classifyLock(cc *ssa.CallCommon, in *ssa.Function) (lockOp, boo
 		// a straight-line unexported helper whose only effect is one lock operation stands for
 		// that operation (rlatch(lock, chunk), c.lockShared() …)
 		if w := L.lockWrapper(sc); w != nil {
-			op := w.op
-			op.Recv, op.Shard = nil, nil
-			if w.recvParam >= 0 && w.recvParam < len(cc.Args) {
-				op.Recv = cc.Args[w.recvParam]
+			if len(w.more) > 0 {
+				return lockOp{}, false // several operations: classifyLocks
 			}
-			switch {
-			case w.shardParam >= 0 && w.shardParam < len(cc.Args) && !w.shardViaChunkAt:
-				op.Shard = cc.Args[w.shardParam]
-			case w.shardParam >= 0 && w.shardViaChunkAt && w.returnsShard:
-				op.Shard = w.callValue(cc, in)
-			}
-			if op.Name == "latch" && op.Shard == nil {
-				return lockOp{}, false // a latch operation whose shard cannot be named in the caller is walked, not summarised
-			}
-			return op, true
+			return w.mapped(w, cc, in)
 		}
 	}
 	if sc == nil || sc.Signature.Recv() == nil {
@@ -459,8 +448,12 @@ func (L *LFacts) walk(fn *ssa.Function, e *env, entry heldSet, parent *LCtx, dep
 	deferred := heldSet{}
 	allInstrs(fn, func(ins ssa.Instruction) {
 		if d, ok := ins.(*ssa.Defer); ok {
-			if op, ok := L.classifyLock(&d.Call, fn); ok && !op.Acquire {
-				deferred[op.Name+":"+string(op.Mode)] = true
+			if ops, ok := L.classifyLocks(&d.Call, fn); ok {
+				for _, op := range ops {
+					if !op.Acquire {
+						deferred[op.Name+":"+string(op.Mode)] = true
+					}
+				}
 			}
 		}
 	})
@@ -488,23 +481,25 @@ func (L *LFacts) walk(fn *ssa.Function, e *env, entry heldSet, parent *LCtx, dep
 				}
 				continue
 			}
-			if op, ok := L.classifyLock(cc, fn); ok {
+			if ops, ok := L.classifyLocks(cc, fn); ok {
 				if isDefer {
 					continue
 				}
-				k := op.Name + ":" + string(op.Mode)
-				if op.Acquire {
-					if visit {
-						for hk := range h {
-							L.Acq = append(L.Acq, acqEdge{From: hk, To: k, Site: ins, Ctx: ctx})
+				for _, op := range ops {
+					k := op.Name + ":" + string(op.Mode)
+					if op.Acquire {
+						if visit {
+							for hk := range h {
+								L.Acq = append(L.Acq, acqEdge{From: hk, To: k, Site: ins, Ctx: ctx})
+							}
+							if len(h) == 0 {
+								L.Acq = append(L.Acq, acqEdge{From: "", To: k, Site: ins, Ctx: ctx})
+							}
 						}
-						if len(h) == 0 {
-							L.Acq = append(L.Acq, acqEdge{From: "", To: k, Site: ins, Ctx: ctx})
-						}
+						h[k] = true
+					} else {
+						delete(h, k)
 					}
-					h[k] = true
-				} else {
-					delete(h, k)
 				}
 				continue
 			}
@@ -1079,8 +1074,54 @@ type wrapSummary struct {
 	op              lockOp
 	recvParam       int
 	shardParam      int
-	shardViaChunkAt bool // shard = commit.ChunkAt(param)
-	returnsShard    bool // … and the wrapper returns that block number as its only result
+	shardViaChunkAt bool           // shard = commit.ChunkAt(param)
+	returnsShard    bool           // … and the wrapper returns that block number as its only result
+	more            []*wrapSummary // further operations of the same helper, in order (lockChunk: latch, then mutex)
+}
+
+// mapped: the operation of summary o (w itself or one of w.more) as seen at the call cc in function in.
+func (w *wrapSummary) mapped(o *wrapSummary, cc *ssa.CallCommon, in *ssa.Function) (lockOp, bool) {
+	op := o.op
+	op.Recv, op.Shard = nil, nil
+	if o.recvParam >= 0 && o.recvParam < len(cc.Args) {
+		op.Recv = cc.Args[o.recvParam]
+	}
+	switch {
+	case o.shardParam >= 0 && o.shardParam < len(cc.Args) && !o.shardViaChunkAt:
+		op.Shard = cc.Args[o.shardParam]
+	case o.shardParam >= 0 && o.shardViaChunkAt && o.returnsShard:
+		op.Shard = w.callValue(cc, in)
+	}
+	if op.Name == "latch" && op.Shard == nil {
+		return lockOp{}, false // a latch operation whose shard cannot be named in the caller
+	}
+	return op, true
+}
+
+// classifyLocks: the lock operations a call stands for, in order — one for a lock method or a
+// one-operation wrapper, several for a straight-line helper that operates several locks
+// (lockChunk: latch then mutex).
+func (L *LFacts) classifyLocks(cc *ssa.CallCommon, in *ssa.Function) ([]lockOp, bool) {
+	if op, ok := L.classifyLock(cc, in); ok {
+		return []lockOp{op}, true
+	}
+	sc := cc.StaticCallee()
+	if sc == nil || cc.IsInvoke() {
+		return nil, false
+	}
+	w := L.lockWrapper(sc)
+	if w == nil || len(w.more) == 0 {
+		return nil, false
+	}
+	var out []lockOp
+	for _, o := range append([]*wrapSummary{w}, w.more...) {
+		op, ok := w.mapped(o, cc, in)
+		if !ok {
+			return nil, false
+		}
+		out = append(out, op)
+	}
+	return out, true
 }
 
 // callValue: the call instruction (as a value) in function `in` whose CallCommon is cc.
@@ -1139,18 +1180,14 @@ func (L *LFacts) lockWrapper(fn *ssa.Function) *wrapSummary {
 		}
 		return -1
 	}
-	var inner *lockOp
+	var inners []lockOp
 	var chunkAt []*ssa.Call
 	ok := true
 	for _, ins := range fn.Blocks[0].Instrs {
 		switch x := ins.(type) {
 		case *ssa.Call:
 			if op, isL := L.classifyLock(&x.Call, fn); isL {
-				if inner != nil {
-					ok = false
-				}
-				o := op
-				inner = &o
+				inners = append(inners, op)
 				continue
 			}
 			if calleeIs(&x.Call, "commit.ChunkAt") {
@@ -1167,28 +1204,41 @@ func (L *LFacts) lockWrapper(fn *ssa.Function) *wrapSummary {
 			ok = false
 		}
 	}
-	if !ok || inner == nil {
+	if !ok || len(inners) == 0 || len(inners) > 3 {
 		return nil
 	}
-	w := &wrapSummary{fn: fn, op: *inner, recvParam: -1, shardParam: -1}
-	if inner.Recv != nil {
-		w.recvParam = baseParam(inner.Recv, 0)
-	}
-	if inner.Shard != nil {
-		sh := strip(inner.Shard)
-		if i := paramIdx(sh); i >= 0 {
-			w.shardParam = i
-		} else if c, isC := sh.(*ssa.Call); isC && calleeIs(&c.Call, "commit.ChunkAt") {
-			if i := paramIdx(strip(c.Call.Args[0])); i >= 0 {
-				w.shardParam, w.shardViaChunkAt = i, true
-				ret, _ := fn.Blocks[0].Instrs[len(fn.Blocks[0].Instrs)-1].(*ssa.Return)
-				w.returnsShard = ret != nil && len(ret.Results) == 1 && strip(ret.Results[0]) == sh
+	var all []*wrapSummary
+	for k := range inners {
+		inner := &inners[k]
+		w := &wrapSummary{fn: fn, op: *inner, recvParam: -1, shardParam: -1}
+		if inner.Recv != nil {
+			w.recvParam = baseParam(inner.Recv, 0)
+		}
+		if inner.Shard != nil {
+			sh := strip(inner.Shard)
+			if i := paramIdx(sh); i >= 0 {
+				w.shardParam = i
+			} else if c, isC := sh.(*ssa.Call); isC && calleeIs(&c.Call, "commit.ChunkAt") {
+				if i := paramIdx(strip(c.Call.Args[0])); i >= 0 {
+					w.shardParam, w.shardViaChunkAt = i, true
+					ret, _ := fn.Blocks[0].Instrs[len(fn.Blocks[0].Instrs)-1].(*ssa.Return)
+					w.returnsShard = ret != nil && len(ret.Results) == 1 && strip(ret.Results[0]) == sh
+				}
 			}
 		}
+		if w.op.Name == "latch" && w.shardParam < 0 {
+			return nil
+		}
+		all = append(all, w)
 	}
-	if w.op.Name == "latch" && w.shardParam < 0 {
-		return nil
+	// one helper either acquires or releases: a helper that does both is an ordinary (balanced or
+	// unbalanced) function and is walked
+	for _, w := range all[1:] {
+		if w.op.Acquire != all[0].op.Acquire {
+			return nil
+		}
 	}
-	L.wrappers[fn] = w
-	return w
+	all[0].more = all[1:]
+	L.wrappers[fn] = all[0]
+	return all[0]
 }
